@@ -28,6 +28,7 @@ type Ctx struct {
 	allTypes []types.Type
 	repoDir  string
 	skips    map[*ssa.Function]map[ssa.Instruction]bool
+	localsRef map[string][]localRef // named locals of the functions under contract when the contracts were written
 }
 
 type Loop struct {
@@ -315,4 +316,55 @@ func isRepoFunc(fn *ssa.Function) bool {
 		return isRepoFunc(fn.Parent())
 	}
 	return p != nil && strings.HasPrefix(p.Path(), repoModule)
+}
+
+// localRef: one named local (SSA alloc with a comment) of a function, in order of appearance.
+type localRef struct {
+	Name string `json:"name"`
+	Type string `json:"type"`
+}
+
+// namedLocals lists the named allocs of fn in block/instruction order.
+func namedLocals(fn *ssa.Function) ([]*ssa.Alloc, []localRef) {
+	var as []*ssa.Alloc
+	var ls []localRef
+	for _, b := range fn.Blocks {
+		for _, in := range b.Instrs {
+			if a, ok := in.(*ssa.Alloc); ok && a.Comment != "" {
+				as = append(as, a)
+				ls = append(ls, localRef{a.Comment, types.TypeString(a.Type(), nil)})
+			}
+		}
+	}
+	return as, ls
+}
+
+// renamedLocal: name is not a local of fn today, but it was when the contracts were written and
+// the function still has the same locals (same number, same types, same order): the local at the
+// same position is meant (a pure rename).
+func (c *Ctx) renamedLocal(fn *ssa.Function, name string) *ssa.Alloc {
+	ref := c.localsRef[funcKey(fn)]
+	if ref == nil {
+		return nil
+	}
+	as, cur := namedLocals(fn)
+	if len(cur) != len(ref) {
+		return nil
+	}
+	idx := -1
+	for i := range ref {
+		if ref[i].Type != cur[i].Type {
+			return nil
+		}
+		if ref[i].Name == name {
+			if idx >= 0 {
+				return nil // ambiguous in the reference
+			}
+			idx = i
+		}
+	}
+	if idx < 0 {
+		return nil
+	}
+	return as[idx]
 }
